@@ -1051,8 +1051,18 @@ def abort_violations(scn, op, before, snap, inv):
     if inv.deadlock is not None:
         probs.append(("hang-after-interrupt" + tag, {"blocked": inv.deadlock}))
     elif inv.internal is not None:
-        probs.append(("internal-error-instead-of-abort %s at %s%s" % (inv.internal[0], inv.internal[1], tag),
-                      {"internal": list(inv.internal)[:3]}))
+        # had the command already reported its final failure when the signal arrived?  (then every task
+        # had been dealt with and only the error report / exit was left)
+        reported = any(e[0] in ("out", "errout") and ("Task failed." in e[1] or "Failed task(s):" in e[1]
+                                                      or e[1].startswith("ERROR:"))
+                       for e in inv.trace[:ti_sent])
+        termed_before = {e[1] for e in inv.trace[:ti_sent] if e[0] == "kill" and e[2] == "SIGTERM"}
+        if inv.internal[0] == "ConductorAbort" and reported and not [n for n in live if n not in termed_before]:
+            probs.append(("abort-escaped-as-traceback [signal-arrived-after-the-final-failure-report]" + tag,
+                          {"internal": list(inv.internal)[:3]}))
+        else:
+            probs.append(("internal-error-instead-of-abort %s at %s%s" % (inv.internal[0], inv.internal[1], tag),
+                          {"internal": list(inv.internal)[:3]}))
     elif inv.code == 0:
         probs.append(("interrupt-ignored-exit-0" + tag, {"spawned_after": spawned_after}))
     elif ABORT_MSG not in err:
